@@ -111,6 +111,7 @@ def loadValidators (t : Tbl Info) (height : Int) : LoadRes :=
 structure State where
   initialHeight : Int
   lastBlockHeight : Int
+  lastValidators : VSet
   validators : VSet
   nextValidators : VSet
   lhvc : Int          -- LastHeightValidatorsChanged
@@ -140,8 +141,46 @@ def genesisState (initialHeight : Int) (valz : List Val) : Except UpdErr State :
   | .error e => .error e
   | .ok vs =>
     let nxt := match increment vs 1 with | some s => s | none => vs
-    .ok { initialHeight := initialHeight, lastBlockHeight := 0, validators := vs,
+    .ok { initialHeight := initialHeight, lastBlockHeight := 0, lastValidators := VSet.empty,
+          validators := vs,
           nextValidators := nxt, lhvc := initialHeight, lhpc := initialHeight }
+
+inductive HsRes
+  | ok (st : State)
+  | panic (e : UpdErr)     -- NewValidatorSet panics on the app's list
+  | noValidators           -- "validator set is nil in genesis and still empty after InitChain"
+deriving Repr
+
+/-- `Handshaker.ReplayBlocks`, genesis branch (app height 0, state height 0), validator part: a
+non-empty validator list returned by InitChain replaces the genesis sets:
+`Validators = NewValidatorSet(vals)`, `NextValidators = NewValidatorSet(vals).CopyIncrementProposerPriority(1)` -/
+def handshakeInit (st : State) (genesisVals iv : List Val) : HsRes :=
+  if iv ≠ [] then
+    match newValidatorSet iv with
+    | .error e => .panic e
+    | .ok vs =>
+      match increment vs 1 with
+      | none => .panic .empty
+      | some nx => .ok { st with validators := vs, nextValidators := nx }
+  else if genesisVals = [] then .noValidators
+  else .ok st
+
+/-- `store.Bootstrap(state)` (state sync): full records for height-1, height, height+1 -/
+def bootstrap (st : State) : Option DB :=
+  let height := if st.lastBlockHeight + 1 = 1 then st.initialHeight else st.lastBlockHeight + 1
+  let t0 : Option (Tbl Info) :=
+    if height > 1 ∧ st.lastValidators.vals ≠ [] then
+      saveValidatorsInfo [] (height - 1) (height - 1) st.lastValidators
+    else some []
+  match t0 with
+  | none => none
+  | some t0 =>
+    match saveValidatorsInfo t0 height height st.validators with
+    | none => none
+    | some t1 =>
+      match saveValidatorsInfo t1 (height + 1) (height + 1) st.nextValidators with
+      | none => none
+      | some t2 => some ⟨t2, saveParamsInfo [] height st.lhpc⟩
 
 inductive StepRes
   | ok (st : State)
@@ -163,7 +202,7 @@ def updateState (st : State) (height : Int) (updates : List Val) : StepRes :=
     | none => .panic
     | some nv' =>
       .ok { st with lastBlockHeight := height, nextValidators := nv',
-                    validators := st.nextValidators, lhvc := lhvc }
+                    validators := st.nextValidators, lastValidators := st.validators, lhvc := lhvc }
 
 /-! ### PruneStates -/
 
